@@ -11,7 +11,8 @@ from z3 import (DeclareSort, EnumSort, Function, Const, Consts, IntSort, BoolSor
                 StringSort, StringVal)
 
 IR_CLASSES = ['Netlist', 'Library', 'Definition', 'Port', 'Cable', 'Wire', 'Instance', 'InnerPin', 'OuterPin']
-CLASSES = ['NoneType', 'Foreign'] + IR_CLASSES
+EXTRA_CLASSES = ['Dict', 'DefaultNamespace', 'EdifNamespace']      # heap dictionaries and the policy objects of the namespace plugin (C10)
+CLASSES = ['NoneType', 'Foreign'] + IR_CLASSES + EXTRA_CLASSES
 
 # field name -> (owner classes, kind)   kind: ref | list | set | odict | val
 FIELDS = {
@@ -123,6 +124,11 @@ class Ctx:
         h['dhas'] = Const('dhas' + tag, ArraySort(R, ArraySort(self.Key, BoolSort())))
         h['dval'] = Const('dval' + tag, ArraySort(R, ArraySort(self.Key, R)))
         h['alloc'] = Const('alloc' + tag, ArraySort(R, BoolSort()))
+        # heap dictionaries (content keyed by a canonical key reference) and the two dictionary attributes of a policy object
+        h['dk'] = Const('dk' + tag, ArraySort(R, ArraySort(R, BoolSort())))
+        h['dv'] = Const('dv' + tag, ArraySort(R, ArraySort(R, R)))
+        h['f_namespaces'] = Const('f_namespaces' + tag, ArraySort(R, R))
+        h['f_edif'] = Const('f_edif_namespaces' + tag, ArraySort(R, R))
         h['ns'] = Const('ns' + tag, ArraySort(R, DeclareSort('NsState')))   # opaque per-parent state of the stock listener's name tables
         h['nsdefault'] = Const('nsdefault' + tag, R)
         return h
